@@ -516,7 +516,9 @@ def call_site(rc, d, loc):
 
     def sub(mo):
         w = mo.group(0)
-        for suf in ("_element_size", "_size", "_count"):
+        if w.endswith("_element_size"):
+            return "ID_element_size"
+        for suf in ("_size", "_count"):
             if w.endswith(suf) and w[:-len(suf)] not in keep:
                 return "ID" + suf
         if w in keep and not re.fullmatch(r"f\d+", w):
@@ -525,6 +527,30 @@ def call_site(rc, d, loc):
     text = re.sub(r"[A-Za-z_][A-Za-z0-9_]*", sub, text)
     text = re.sub(r"\d+", "N", text)
     return "at:" + re.sub(r"\s+", " ", text)[:100]
+
+
+def wrap_context(m, exp):
+    """release-build face of the unchecked `count * element width` guard: the product can exceed
+    2^64 when the count field is wide enough, the guard wraps and the element reads run off the end"""
+    if exp[0] != "fault" or not exp[2] or "." not in exp[2]:
+        return None
+    did, fid = exp[2].split(".", 1)
+    d = m.dm.get(did)
+    if not d:
+        return None
+    for fl in d.get("fields", ()):
+        if fl["kind"] == "array_field" and fl["id"] == fid.split(" ")[0]:
+            tgt = m.array_target(d, fl["id"])
+            if tgt is None or tgt["kind"] != "count_field":
+                return None
+            if fl.get("width") is not None:
+                ew = fl["width"] // 8
+            else:
+                sb = m.static_bits_decl(fl["type_id"])
+                ew = sb // 8 if sb else None
+            if ew and ew > 1 and tgt["width"] + (ew - 1).bit_length() > 64:
+                return "count-times-element-width-can-wrap"
+    return None
 
 
 def where_of(m, exp):
@@ -582,11 +608,11 @@ def dec_worker(task):
                     V("C01", "does-not-terminate|%s" % where, dict(case, observed="no reply within 40 s (median op latency is microseconds)"))
                 continue
             if "panic" in r:
-                site = call_site(rc, d, r["panic"]["loc"]) or where
+                site = call_site(rc, d, r["panic"]["loc"]) or wrap_context(m, exp) or where
                 V("C01", "panic:%s|%s" % (norm_msg(r["panic"]["msg"]), site), dict(case, observed=r["panic"]))
                 continue
             res["lat"].append(r.get("ns", 0))
-            peak = r.get("alloc_peak", 0)
+            peak = r.get("decode_alloc_peak", 0)
             if peak > ALLOC_BASE + ALLOC_PER_BYTE * len(b):
                 V("C01", "allocation-out-of-proportion|%s" % where,
                   dict(case, observed={"alloc_peak": peak, "input_len": len(b)}))
